@@ -5,7 +5,7 @@ import ast
 import re
 
 from .. import cxx, dl, l2, lit, pe
-from ..cabs import Exec, State, lname
+from ..cabs import Exec, State, lname, upper_closure
 from ..core import AnalysisError
 from ..cxx import show, sub_exprs, all_stmts, all_calls, stmt_exprs, callee, receiver, call_args
 from ..flow import lexical_conds
@@ -88,7 +88,7 @@ def rule_dev_trunc(cx, rid, em, only=None):
                 if nm is None:
                     r.fail(f"{n}/print-of-expression", (em.rel, em.const("LCD_HELPER_SNIPPET").lineno), f"{n}: `{show(e)}` prints an expression whose length is not tracked")
                     return
-                his = st.hi.get(f"{nm}.length()", frozenset())
+                his = upper_closure(st, f"{nm}.length()")
                 ok = bool(his & {"cols", "available"}) or built_by_cols_loop(f["body"], nm)
                 if "available" in his and "cols" not in his:
                     # available = cols - col (col >= 0) or cols - offset (offset >= 0)
